@@ -4,6 +4,8 @@ import (
 	"encoding/binary"
 	"fmt"
 	"net"
+	"os"
+	"path/filepath"
 	"sync"
 	"testing"
 	"time"
@@ -11,7 +13,9 @@ import (
 	"github.com/gopacket/gopacket"
 	"pgregory.net/rapid"
 
+	"github.com/scionproto/scion/pkg/addr"
 	"github.com/scionproto/scion/pkg/slayers"
+	"github.com/scionproto/scion/pkg/slayers/path"
 	"github.com/scionproto/scion/router"
 	"github.com/scionproto/scion/router/underlayproviders/udpip"
 
@@ -192,6 +196,41 @@ func c08Mutate(rt *rapid.T, raw []byte) ([]byte, string) {
 	return b, kind
 }
 
+// TestC08RegressEgressZero: a packet for another AS whose current (authentic) hop field names the
+// internal interface as egress used to be handed to the internal link without an underlay destination
+// when it came from a sibling link (send loop dereferences a nil address). Fixed in the router.
+func TestC08RegressEgressZero(t *testing.T) {
+	l := c08Lab(false)
+	now := uint32(time.Now().Unix())
+	for _, consdir := range []bool{true, false} {
+		// the sibling that owns interface 13 has crossed over from segment 0 (entered through 13);
+		// the first hop field of segment 1, validated here, names interface 0 as egress
+		k := &forgeCase{lens: []int{2, 3}, consdir: []bool{false, consdir}, infos: []path.InfoField{{SegID: 9, Timestamp: now - 5}, {ConsDir: consdir, SegID: 7, Timestamp: now - 5}},
+			srcIA: labNeighbor(900), dstIA: labNeighbor(901), arrival: "sib", h: 2, vHop: 2}
+		for i := 0; i < 5; i++ {
+			k.hops = append(k.hops, path.HopField{ExpTime: 63, ConsIngress: 100, ConsEgress: 100})
+		}
+		setSides(&k.hops[1], false, 13, 0)
+		setSides(&k.hops[2], consdir, 31, 0)
+		k.remac(l.key, 0x1234, 0)
+		k.opts = forgeOpts{srcHost: addr.MustParseHost("10.1.1.1"), dstHost: addr.MustParseHost("10.2.2.2"), sport: 40001, dport: 40002, l4: "udp"}
+		raw, err := k.serialize()
+		if err != nil {
+			t.Fatal(err)
+		}
+		for link := range c08Links {
+			var st []string
+			if msg := routeBytes(raw, uint8(link), false, func(s string) { st = append(st, s) }); msg != "" {
+				f := filepath.Join(os.Getenv("VERIF_REPLAY_DIR"), fmt.Sprintf("C08-egress-zero-%v-%d.txt", consdir, c08Links[link]))
+				_ = os.WriteFile(f, []byte(fmt.Sprintf("link %d consdir %v input %x\n%s\n", c08Links[link], consdir, raw, msg)), 0o644)
+				fmt.Printf("VERIF-REPLAY-FILE: %s\n", f)
+				t.Fatalf("link %d: %s (%v)", c08Links[link], msg, st)
+			}
+			t.Logf("link %d consdir %v: %v", c08Links[link], consdir, st)
+		}
+	}
+}
+
 func TestC08(t *testing.T) {
 	rec := evid.New("C08", "rapid: structured mutants (bit flips, HdrLen, PayloadLen, meta header incl. SegLen sums > 64, address types, next-header chain, truncation, extension, path type, field constants, nested/truncated SCMP quotes, STUN binding requests) "+
 		"of valid forged SCION / EPIC / one-hop packets, injected on an external link of every type, a sibling link or the internal link (there first through the link's STUN handling), SCMP authentication on/off; "+
@@ -199,7 +238,7 @@ func TestC08(t *testing.T) {
 		"Non-trivial: input that passes header decoding (reaches a forward, deliver or slow-path decision).")
 	defer rec.Flush(t)
 	rec.Assume("processor objects are created per input (no state leaks between inputs)", "inputs up to the 9000-byte router buffer")
-	rec.Require("forwarded", "delivered", "scmp_emitted", "discarded", "slow_path_no_answer", "mut_meta", "mut_hdrlen", "mut_nested_scmp", "mut_stun", "link_internal", "link_sibling", "kind_epic", "kind_onehop", "auth_on")
+	rec.Require("forwarded", "delivered", "scmp_emitted", "discarded", "slow_path_no_answer", "mut_meta", "mut_hdrlen", "mut_nested_scmp", "mut_stun", "link_internal", "link_sibling", "kind_epic", "kind_onehop", "auth_on", "valid_mac_odd_interface")
 	rapid.Check(t, func(rt *rapid.T) {
 		auth := rapid.Bool().Draw(rt, "auth")
 		l := c08Lab(auth)
@@ -207,6 +246,21 @@ func TestC08(t *testing.T) {
 		var raw []byte
 		var err error
 		kind := rapid.SampledFrom([]string{"scion", "scion", "epic", "onehop"}).Draw(rt, "pathKind")
+		// authentic hop field with a nonsensical interface: the validated hop names interface 0 (or an
+		// unknown one) on one side and still carries a valid MAC - what a host can build from the last
+		// hop field of any segment that ends in this AS.
+		oddIf := ""
+		if rapid.IntRange(0, 5).Draw(rt, "oddInterface") == 0 {
+			hf := &k.hops[k.vHop]
+			v := rapid.SampledFrom([]uint16{0, 0, 999}).Draw(rt, "oddValue")
+			if rapid.Bool().Draw(rt, "oddSide") {
+				hf.ConsEgress = v
+			} else {
+				hf.ConsIngress = v
+			}
+			k.remac(l.key, k.beta, k.beta2)
+			oddIf = "valid_mac_odd_interface"
+		}
 		switch kind {
 		case "epic":
 			k.opts.hbh, k.opts.e2e = false, false
@@ -238,6 +292,9 @@ func TestC08(t *testing.T) {
 			}
 		}
 		labels := []string{"mut_" + mk, "kind_" + kind}
+		if oddIf != "" {
+			labels = append(labels, oddIf)
+		}
 		if auth {
 			labels = append(labels, "auth_on")
 		}
